@@ -33,6 +33,7 @@
 # include <unistd.h>
 #endif
 #include <ctype.h>
+#include <limits.h>
 
 #ifdef HAVE_SYS_STAT_H
 # include <sys/stat.h>
@@ -321,9 +322,10 @@ static cfg_opt_t *cfg_getopt_secidx(cfg_t *cfg, const char *name,
 				break;
 			}
 
+			errno = 0;
 			i = strtol(title, &endptr, 0);
-			if (*endptr != '\0')
-				i = -1;
+			if (endptr == title || *endptr != '\0' || errno == ERANGE || i > (long int)UINT_MAX)
+				i = -1; /* not a number, or no valid index */
 		} while(0);
 
 		if (index)
